@@ -54,6 +54,21 @@ def setitem(rng, tier):
                             else: want[d, p][sl] = v if d == 0 else 0.0
                     yield case, (None if numpy.array_equal(u.data, want) else 'item assignment differs from the NumPy assignment on every coefficient slice (constants: zeroth coefficient set, higher ones cleared)')
                     if kind == 'UTPM' and not numpy.array_equal(rhs.data, v): yield case, 'right-hand side modified by the assignment'
+    # the right-hand side is itself a view of the target (NumPy copies as if through a temporary, overlapping or not)
+    T_ = lambda a_: a_.T
+    selfcases = [((4,), slice(1, None), lambda u: u[:-1]), ((4,), slice(None, None, -1), lambda u: u), ((4,), slice(0, 2), lambda u: u[2:4]),
+                 ((4,), slice(1, 3), lambda u: u[1:3]), ((6,), slice(2, 5), lambda u: u[0:6:2]),
+                 ((3, 3), Ellipsis, T_), ((3, 3), (slice(None), slice(None)), lambda u: u[1]), ((3, 3), 0, lambda u: u[:, 0]), ((3, 3), (slice(None), 1), lambda u: u[2])]
+    for (D, P) in ((1, 1), (3, 2)):
+        for shp, sl, src in selfcases:
+            x = optable.gen_input(rng, D, P, shp, (-1, 1)); u = U(x.copy())
+            case = {'index': str(sl), 'rhs': 'view of the target itself', 'D': D, 'P': P, 'shape': list(shp)}
+            try: u[sl] = src(u)
+            except Exception as e: yield case, 'raises %s: %s' % (type(e).__name__, str(e)[:80]); continue
+            want = x.copy()
+            for d in range(D):
+                for p in range(P): want[d, p][sl] = src(x[d, p].copy())
+            yield case, (None if numpy.array_equal(u.data, want) else 'assigning a view of the polynomial into itself differs from NumPy (which copies as if through a temporary)')
     # constructors
     for (D, P) in ((1, 1), (3, 2)):
         x = U(optable.gen_input(rng, D, P, (2,), (-1, 1)))
@@ -140,20 +155,22 @@ def factorization_directions(rng, tier):
     def sym(x): return x + numpy.swapaxes(x, 2, 3)
     def base_spd(p, n): B = numpy.array([native.rnd(rng) for _ in range(n * n)]).reshape(n, n); return B.dot(B.T) + (1.5 + p) * numpy.eye(n)
     facts = [('qr', lambda A: a.qr(A), 'gen'), ('cholesky', lambda A: (a.cholesky(A),), 'spd'), ('eigh', lambda A: a.eigh(A), 'symrep'), ('svd', lambda A: a.svd(A), 'gen'),
-             ('inv', lambda A: (a.inv(A),), 'gen'), ('det', lambda A: (a.det(A),), 'gen'), ('logdet', lambda A: (a.logdet(A),), 'spd'), ('lu', lambda A: a.lu(A), 'gen'), ('qr_full', lambda A: a.qr_full(A), 'gen')]
+             ('inv', lambda A: (a.inv(A),), 'gen'), ('det', lambda A: (a.det(A),), 'gen'), ('logdet', lambda A: (a.logdet(A),), 'spd'), ('lu', lambda A: a.lu(A), 'gen'), ('qr_full', lambda A: a.qr_full(A), 'gen'),
+             ('qr[first direction rank-deficient]', lambda A: a.qr(A), 'rankdef')]
     for name, f, kind in facts:
-        for n in (2, 3):
+        for n in ((2, 3) if kind != 'rankdef' else (3, 4)):
             for (D, P) in ((2, 2), (3, 3)) if tier != 'quick' else ((2, 2),):
                 A = numpy.array([native.rnd(rng) for _ in range(D * P * n * n)]).reshape(D, P, n, n)
                 if kind in ('spd', 'symrep'): A = sym(A)
                 for p in range(P):
-                    if kind == 'gen': A[0, p] = A[0, p] + (2.0 + p) * numpy.eye(n)
+                    if kind in ('gen', 'rankdef'): A[0, p] = A[0, p] + (2.0 + p) * numpy.eye(n)
                     elif kind == 'spd': A[0, p] = base_spd(p, n)
                     else:
                         q0, _ = numpy.linalg.qr(numpy.array([native.rnd(rng) for _ in range(n * n)]).reshape(n, n) + 2 * numpy.eye(n))
                         lam = numpy.arange(1., n + 1) + p
                         if p == P - 1: lam[1] = lam[0]                    # last direction: exactly repeated eigenvalue
                         A[0, p] = q0.dot(numpy.diag(lam)).dot(q0.T)
+                if kind == 'rankdef': A[:, 0, :, n - 2:] = 0.          # the rank the library determines for one direction must not leak into the next
                 case = {'factorization': name, 'n': n, 'D': D, 'P': P}
                 try: ys = f(U(A.copy()))
                 except Exception as e: yield case, 'raises %s: %s' % (type(e).__name__, str(e)[:80]); continue
@@ -165,7 +182,8 @@ def factorization_directions(rng, tier):
                         if not numpy.allclose(yy.data[:, p], y1k.data[:, 0], rtol=1e-8, atol=1e-8): fail = 'forward: output %d of direction %d differs from the single-direction factorization' % (k, p); break
                     if fail: break
                 yield dict(case, mode='forward'), fail
-                # reverse sweep through the traced factorization
+                # reverse sweep through the traced factorization (not for the rank-deficient base point: the pullback solves with R_0 and raises there)
+                if kind == 'rankdef': continue
                 try:
                     def trace(Ad):
                         cg = a.CGraph(); fA = a.Function(U(Ad.copy())); outs = f(fA)
@@ -186,3 +204,27 @@ def factorization_directions(rng, tier):
                     msg = str(e)
                     if "pb_" in msg and 'has no attribute' in msg: continue            # no pullback provided: allowed
                     yield dict(case, mode='reverse'), 'raises %s: %s' % (type(e).__name__, [l for l in msg.splitlines() if l.strip()][-1][:120] if msg.strip() else '')
+
+
+def dot_mixed_kinds(rng, tier):
+    """C10: dot with a plain array on either side and operands of rank up to 3 -- shape and every coefficient slice follow numpy.dot
+    (the constant is a degree-0 polynomial, so coefficient d of the result is numpy.dot(constant, y_d))"""
+    a = native.algopy(); U = a.UTPM
+    pairs = [((3,), (3,)), ((2, 3), (3,)), ((3,), (3, 2)), ((2, 3), (3, 2)), ((4,), (4, 4, 5)), ((3, 4), (4, 4, 2)), ((2, 3), (2, 3, 2)), ((2, 2, 3), (3,)), ((2, 2, 3), (3, 2)), ((3, 3, 3), (3, 3, 3))]
+    for (D, P) in ((1, 1), (3, 2)):
+        for (sx, sy) in pairs:
+            x = optable.gen_input(rng, D, P, sx, (-1, 1)); y = optable.gen_input(rng, D, P, sy, (-1, 1))
+            for kinds in ('CU', 'UC'):
+                case = {'op': 'dot', 'kinds': kinds, 'shapes': [list(sx), list(sy)], 'D': D, 'P': P}
+                try:
+                    if kinds == 'CU': c = x[0, 0].copy(); r = a.dot(c, U(y.copy())); want = lambda d, p: numpy.dot(c, y[d, p])
+                    else: c = y[0, 0].copy(); r = a.dot(U(x.copy()), c); want = lambda d, p: numpy.dot(x[d, p], c)
+                except Exception as e: yield case, 'raises %s: %s' % (type(e).__name__, str(e)[:100]); continue
+                fail = None
+                for d in range(D):
+                    for p in range(P):
+                        w = want(d, p)
+                        if r.data[d, p].shape != numpy.shape(w): fail = 'shape %s, numpy.dot gives %s' % (r.data[d, p].shape, numpy.shape(w)); break
+                        if not numpy.allclose(r.data[d, p], w, rtol=1e-12, atol=1e-12): fail = 'coefficient %d of direction %d differs from numpy.dot with the constant operand' % (d, p); break
+                    if fail: break
+                yield case, fail
